@@ -4,6 +4,7 @@ import random
 
 import dataflow
 import gen_dataflow
+import ho
 import oracle_lifecycle as ol
 import runner
 from framework import Outcome
@@ -37,14 +38,35 @@ class C14:
     assumptions = ["the fault model is an exception thrown by user code of a node (start/eval/stop); bad_alloc inside the engine's own bookkeeping is out of scope",
                    "a stop fault raised during the release of an executor (cleanup_on_error=false) cannot reach the caller and is not asserted to"]
 
+    def gen_dynamic(self, rng, seed):
+        """map_ / switch_ / reduce_ children alive at the fault time (mode higher_order)"""
+        end = rng.choice((8, 12))
+        writers = [ho.gen_tsd_writer(rng, 1, end, pool=rng.choice((3, 5))), ho.gen_ts_writer(rng, 2, end, values=[1, 2], dense=True),
+                   ho.gen_ts_writer(rng, 3, end, dense=True)]
+        stmts = ["map 10 fn=%s d=1" % rng.choice(("Accum", "Chain")), "cons 11 10"]
+        if rng.random() < 0.7:
+            stmts += ["switch 20 key=2 cases=1:%s,2:%s x=3" % (rng.choice(("Accum", "AddOne")), rng.choice(("Accum", "Chain"))), "cons 21 20"]
+        if rng.random() < 0.5:
+            stmts += ["reduce 30 fn=AddInts c=1", "cons 31 30"]
+        return dict(kind="dynamic", sc=dict(window=(0, end), writers=writers, stmts=stmts), seed=seed)
+
     def gen(self, seed):
         rng = random.Random(seed)
+        if rng.random() < 0.35:
+            return self.gen_dynamic(rng, seed)
         prog = gen_dataflow.gen_program(rng.getrandbits(48), size=rng.randint(2, 12), allow=dict(ite=rng.random() < 0.5))
         s, e = prog["window"]
         prog["window"] = (s, min(e, s + 14))
         return dict(prog=prog, seed=seed)
 
     def one(self, prog, faults, cleanup, stopat, fresh):
+        if isinstance(prog, dict) and "stmts" in prog:
+            sc = copy.deepcopy(prog)
+            sc["stmts"] = list(sc["stmts"]) + ["fault %d %s %d" % tuple(f) for f in faults]
+            sc["options"] = dict(cleanup_on_error=1 if cleanup else 0)
+            text = ho.emit(sc)
+            res = runner.run_fresh(text, san=self.san) if fresh else runner.run(text, san=self.san)
+            return text, res
         p = copy.deepcopy(prog)
         p["faults"] = list(faults)
         p["options"] = dict(cleanup_on_error=1 if cleanup else 0, log_ne=1)
@@ -55,7 +77,8 @@ class C14:
         return text, res
 
     def run(self, case, fresh=False):
-        prog = dataflow.normalise(case["prog"])
+        dynamic = case.get("kind") == "dynamic"
+        prog = ho.normalise(case["sc"]) if dynamic else dataflow.normalise(case["prog"])
         rng = random.Random(case.get("seed", 0) ^ 0x5EED)
         plans = case.get("plans")
         text0, base = self.one(prog, [], True, None, fresh)
@@ -67,6 +90,23 @@ class C14:
         v, info = ol.check_lifecycle(base.events, True)
         if v:
             return Outcome(violation=dict(clause="fault_free:" + v[0], detail=v[1]), digest=base.digest, sample=dict(scenario=text0))
+        if plans is None and dynamic:
+            # fault points of the library functions inside dynamic children: function kind x phase x occurrence
+            counts = {}
+            fid = {"Accum": 7002, "AddOne": 7001}
+            for e in base.events:
+                if e["k"] == "h" and e["f"] in fid:
+                    ph = {"ev": "eval", "start": "start", "stop": "stop"}[e["e"]]
+                    if e["f"] == "AddOne" and ph != "eval":
+                        continue
+                    counts[(fid[e["f"]], ph)] = counts.get((fid[e["f"]], ph), 0) + 1
+            singles = [[(i, ph, occ)] for (i, ph), n in sorted(counts.items()) for occ in range(1, min(n, 4) + 1)]
+            plans = [dict(faults=f, cleanup=rng.random() < 0.6, stopat=None) for f in singles]
+            evals = [f[0] for f in singles if f[0][1] == "eval"]
+            stops = [f[0] for f in singles if f[0][1] == "stop"]
+            for _ in range(min(6, len(singles))):
+                if evals and stops:
+                    plans.append(dict(faults=[rng.choice(evals), rng.choice(stops)], cleanup=rng.random() < 0.6, stopat=None))
         if plans is None:
             pts = fault_points(base.events)
             singles = []
@@ -98,7 +138,8 @@ class C14:
         stats = dict(fault_points=len({tuple(p["faults"][0]) for p in plans if len(p["faults"]) == 1}), injected_runs=0,
                      faults_fired={"F1_start": 0, "F1_eval": 0, "F1_stop": 0}, pair_plans=sum(1 for p in plans if len(p["faults"]) > 1),
                      cleanup_off_runs=0, request_stop_runs=0, lifecycle_events=info["lifecycle_events"], nested_graph_instances=info["graphs"] - 1,
-                     probe_stop_fault_after_eval_fault=0, probe_fault_inside_nested_child=0, simulated_time_us=prog["window"][1] - prog["window"][0])
+                     probe_stop_fault_after_eval_fault=0, probe_fault_inside_nested_child=0, probe_dynamic_children_alive=1 if dynamic else 0,
+                     simulated_time_us=prog["window"][1] - prog["window"][0])
         viol = None
         sample_plan = None
         digests = [base.digest]
@@ -119,7 +160,7 @@ class C14:
             if inf:
                 for f in inf["fired"]:
                     stats["faults_fired"]["F1_" + f["phase"]] += 1
-                    if f["root_owner"] is not None and f["id"] >= 10000:
+                    if f["root_owner"] is not None and (f["id"] >= 10000 or dynamic):
                         stats["probe_fault_inside_nested_child"] += 1
                 ph = [f["phase"] for f in inf["fired"]]
                 if "eval" in ph and "stop" in ph and ph.index("eval") < ph.index("stop"):
@@ -133,10 +174,24 @@ class C14:
         if viol:
             sample = dict(scenario=sample_plan[1], plan=sample_plan[0])
         return Outcome(violation=viol, stats=stats, digest=runner.h64(digests) and "%016x" % runner.h64(digests), nontrivial=nontrivial, sample=sample,
-                       shape=runner.h64(dataflow.shape_key(prog), len(plans)))
+                       shape=runner.h64(text0, len(plans)))
 
     def shrink(self, case):
         # first pin the failing plan, then shrink the program
+        if case.get("kind") == "dynamic":
+            if case.get("plans") is None or len(case["plans"]) > 1:
+                base = self.run(case)
+                if base.violation and isinstance(base.sample, dict) and "plan" in base.sample:
+                    yield dict(case, plans=[base.sample["plan"]])
+                return
+            sc = ho.normalise(case["sc"])
+            for i, w in enumerate(sc["writers"]):
+                for off in sorted(w["script"]):
+                    if len(w["script"]) > 1:
+                        q = copy.deepcopy(sc)
+                        del q["writers"][i]["script"][off]
+                        yield dict(case, sc=q)
+            return
         prog = dataflow.normalise(case["prog"])
         if case.get("plans") is None or len(case["plans"]) > 1:
             base = self.run(case)
